@@ -1269,6 +1269,15 @@ pub fn suite_flags(out: &mut Out, tier: &str, rng: &mut Rng) {
             }
         }
     }
+    // control messages with the O and / or P bit whose AVP area starts with an extreme 16-bit word, followed by
+    // more than 64 KiB of further octets (what a disabled unused-field check lets through must stay harmless)
+    for bits in [0x4000u16, 0x8000, 0xc000] {
+        for first in [0xffffu16, 0xfff2, 0x8000, 0x0000, 0x0108] {
+            let mut b = enc_control_raw(flag_word(true, true, true, false, false, 2) | bits, None, [1, 2, 3, 4], &first.to_be_bytes());
+            b.extend(rng.bytes(65536 + (first as usize % 17)));
+            out.emit(json!({"op": "decode_opts", "in": bytes_json(&b)}));
+        }
+    }
     // attribute numbers that later protocol versions assign (40..=110), behind a Message Type, under every version
     // nibble that a disabled version check lets through
     for t in 40u16..=110 {
@@ -2505,6 +2514,40 @@ pub fn suite_text_classes(out: &mut Out, tier: &str, rng: &mut Rng) {
             }
         }
     }
+    // every C0 and C1 control, the bidirectional / invisible formatting characters and other code points that
+    // "sanitising" code singles out, alone / inside / at the end of a short text, in every text kind and Host Name
+    let mut cps: Vec<u32> = (0x00u32..=0x1f).chain(0x7f..=0x9f).collect();
+    cps.extend([0xad, 0x34f, 0x61c, 0x115f, 0x180e, 0x200b, 0x200c, 0x200d, 0x200e, 0x200f, 0x2028, 0x2029, 0x202a, 0x202b, 0x202c, 0x202d, 0x202e,
+                0x2060, 0x2066, 0x2067, 0x2068, 0x2069, 0x3000, 0xfe0f, 0xfeff, 0xfff9, 0xfffa, 0xfffb, 0xfffc, 0xfffd, 0xe0001, 0xe0020, 0xe007f, 0x1f600]);
+    for (ci, cp) in cps.iter().enumerate() {
+        let ch = char::from_u32(*cp).unwrap();
+        for (fi, t) in [format!("{ch}"), format!("acme{ch}gro.live"), format!("ab{ch}")].iter().enumerate() {
+            for (ki, k) in text_kinds.iter().chain(octet_kinds[..1].iter()).enumerate() {
+                if tier != "thorough" && (ci + fi + ki) % 2 == 1 {
+                    continue;
+                }
+                let a = text_avp(k, t.as_bytes(), rng);
+                out.emit(json!({"op": "roundtrip", "kind": "avp", "v": a}));
+                let m = json!({"k": "Control", "length": 0, "tunnel_id": 1, "session_id": 2, "ns": 3, "nr": 4, "avps": [gen_message_type(rng), a]});
+                let wire = enc_control(&m);
+                out.emit(json!({"op": "decode", "in": bytes_json(&wire), "opts": [true, true, true], "entry": "validate", "rdr": "slice"}));
+                out.emit(json!({"op": "chain", "in": bytes_json(&wire), "opts": [true, true, true]}));
+            }
+        }
+    }
+    // names that real peers send, plain and with the endings C strings and line-oriented tools leave behind
+    for name in ["Microsoft", "Cisco Systems, Inc.", "Juniper Networks", "xl2tpd.org", "Linux", "MikroTik", "accel-ppp", "FreeBSD MPD", "Ubiquiti", "Apple",
+                 "Windows", "Katalix Systems Ltd. Linux-3.2", "lac.example.com", "LNS", "localhost"] {
+        for end in ["", "\0", "\0\0", "\0\0\0", " ", "\r\n", "\n", ".", "..", "\u{feff}"] {
+            let t = format!("{name}{end}");
+            for k in ["VendorName", "HostName", "CalledNumber", "ProxyAuthenName", "PrivateGroupId"] {
+                let a = text_avp(k, t.as_bytes(), rng);
+                out.emit(json!({"op": "roundtrip", "kind": "avp", "v": a}));
+                let m = json!({"k": "Control", "length": 0, "tunnel_id": 1, "session_id": 2, "ns": 3, "nr": 4, "avps": [gen_message_type(rng), a]});
+                out.emit(json!({"op": "chain", "in": bytes_json(&enc_control(&m)), "opts": [true, true, true]}));
+            }
+        }
+    }
     for total in [70usize, 140, 300, 520, 1000] {
         for (i, t) in straddling_texts(total).iter().enumerate() {
             for (ki, k) in text_kinds.iter().enumerate() {
@@ -2779,6 +2822,19 @@ pub fn suite_record_product(out: &mut Out, tier: &str, rng: &mut Rng) {
                 out.emit(json!({"op": "ctl_records", "in": bytes_json(&w), "recs": recs.iter().map(|r| bytes_json(r)).collect::<Vec<_>>()}));
                 out.emit(json!({"op": "decode", "in": bytes_json(&w), "opts": [true, true, true], "entry": "validate", "rdr": "slice"}));
             }
+        }
+    }
+    // vendor-specific records of well-known enterprise numbers with every attribute type 0..=255 (thorough: ..=1023),
+    // M / H clear and set: always one UnsupportedVendorId, never skipped
+    for vendor in [9u16, 43, 311, 2636, 3561, 10415, 65535] {
+        let top = if tier == "thorough" { 1023u16 } else { 255 };
+        for t in 0..=top {
+            let f = [0u8, 1, 2, 3][(t as usize + vendor as usize) % 4];
+            let p = if t % 3 == 0 { vec![] } else { rng.rbytes(1, 5) };
+            let recs = vec![enc_avp(&gen_message_type(rng)), enc_record(f, 6 + p.len(), vendor, t, &p), enc_avp(&gen_avp(rng, 5))];
+            let body: Vec<u8> = recs.iter().flatten().copied().collect();
+            let w = enc_control_raw(flag_word(true, true, true, false, false, 2), None, [1, 2, 3, 4], &body);
+            out.emit(json!({"op": "ctl_records", "in": bytes_json(&w), "recs": recs.iter().map(|r| bytes_json(r)).collect::<Vec<_>>()}));
         }
     }
     let flags: &[u8] = &[0, 1, 2, 3, 0x3d, 0x3e];
